@@ -330,6 +330,7 @@ func (in *Interp) resolve(l *LazyV, tag int) {
 		bits, signed, _ := intBits(tt)
 		lo, hi := typeRange(bits, signed)
 		iv = IfaceV{T: tt, V: in.freshInt(nm+"_i", lo, hi)}
+		in.numLeaves = append(in.numLeaves, iv.V.(*Term))
 	case TF32, TF64:
 		bits := 64
 		if tag == TF32 {
@@ -415,6 +416,7 @@ func (in *Interp) symNumText(name string, spec *DocSpec) *NumText {
 	nt := &NumText{Form: f.f, Scale: f.scale}
 	if f.f != NFBad {
 		nt.K = in.freshInt(name, spec.NumLo, spec.NumHi)
+		in.numLeaves = append(in.numLeaves, nt.K)
 		if f.scale > 0 {
 			// a genuine fraction: K not divisible by 10 (otherwise another spelling)
 		}
